@@ -124,7 +124,9 @@ Fixpoint keyed (f : val -> str val) (xs : list val) : list (list val * val) * fi
       end
   end.
 
+(** [sort_by_cached_key] does not compute keys of slices shorter than two elements *)
 Definition sort_by_f (f : val -> str val) (xs : list val) : str val :=
+  if (List.length xs <? 2)%nat then sone (Arr xs) else
   let '(kx, t) := keyed f xs in
   match t with
   | FEnd => sone (Arr (map snd (sort_by (fun a b => keys_cmp (fst a) (fst b)) kx)))
